@@ -28,7 +28,8 @@ def shrink_plan(check, plan, cls, max_exec=300, max_s=30.0):
             return False
         tries[0] += 1
         try:
-            out = check.execute(p)
+            from .driver import timed_execute
+            out = timed_execute(check, p)
         except BaseException:
             return False
         return any(v.cls() == cls for v in out.violations)
